@@ -85,13 +85,14 @@ theorem simpleEscape_spec :
 theorem lexOne_escapeByte (b : Nat) (hb : b < 256) (rest : List Nat) :
     lexOne (escapeByte b ++ rest) = some (b, rest) := by
   unfold escapeByte
-  by_cases h1 : b = 92 ∨ b = 34
-  · rcases h1 with h1 | h1 <;> subst h1 <;> simp [lexOne, isOct, cSimpleEscape]
+  by_cases h1 : b = 92 ∨ b = 34 ∨ b = 63
+  · rcases h1 with h1 | h1 | h1 <;> subst h1 <;> simp [lexOne, isOct, cSimpleEscape]
   · have hne92 : b ≠ 92 := fun e => h1 (Or.inl e)
-    have hne34 : b ≠ 34 := fun e => h1 (Or.inr e)
+    have hne34 : b ≠ 34 := fun e => h1 (Or.inr (Or.inl e))
+    have hne63 : b ≠ 63 := fun e => h1 (Or.inr (Or.inr e))
     by_cases h2 : 32 ≤ b ∧ b < 127
     · have hne10 : b ≠ 10 := by omega
-      simp [h1, h2, lexOne, hne92, hne34, hne10]
+      simp [h1, h2, lexOne, hne92, hne34, hne63, hne10]
     · have e1 : isOct (48 + b / 64) = true := by simp [isOct]; omega
       have e2 : isOct (48 + b / 8 % 8) = true := by simp [isOct]; omega
       have e3 : isOct (48 + b % 8) = true := by simp [isOct]; omega
